@@ -25,12 +25,13 @@ import zlib
 from vmon import corpus, hooks, probes
 from vmon.case import LibRaised, exc_mech
 from vmon.oracle import c01_sfntdir as sd
+from vmon.oracle.c03_strings import NotComparable as cs_NotComparable
 
 PROPERTY = "C01"
 LEVEL = "exploration"
 RULE = ("one configuration = (corpus font or TTC member or derived font [re-flavoured / injected unknown tag / "
         "garbage-replaced table / transplant / generated GPOS pair lookups / generated composite glyphs / foreign-writer "
-        "encoding of cmap, glyf+loca, hmtx, name or post], lazy mode, touch pattern all|subset|none, recalcBBoxes); it is "
+        "encoding of cmap, glyf+loca, hmtx, name or post / boundary-sized CFF INDEX, index map or clashing cmap], lazy mode, touch pattern all|subset|none, recalcBBoxes); it is "
         "non-trivial when the getTableData monitor saw at least one table take the path the pattern is about "
         "(compiled for all/subset, pass-through for none/subset) and every oracle stage (a)-(c) reached a verdict; "
         "distinct by that tuple")
@@ -39,6 +40,7 @@ ASSUMPTIONS = [
     "derived fields the library documents as recomputed on compile are masked in (a) only: head.checkSumAdjustment, OS/2 usFirstCharIndex/usLastCharIndex, post extraNames that are standard Macintosh names; with recalcBBoxes=True also head/glyph bboxes, head.flags bit 1 (set by maxp.recalc from 'every xMin equals its lsb'), hhea/vhea extents, maxp maxima, CFF FontBBox; their correctness is C04's job",
     "fields that only describe the chosen encoding are masked in (a) as well: head.indexToLocFormat, hhea.numberOfHMetrics / vhea.numberOfVMetrics, and the length= / nGroups= attributes of cmap subtables; the meaning they encode is judged by the spec-level readers (cmap mapping per subtable, expanded hmtx/vmtx metrics, post glyph names, name records, composite components) and by HarfBuzz / FreeType",
     "foreign-writer inputs (vmon/gen/c01_foreign.py, assembled by the spec-level sfnt writer in oracle/c01_sfntdir.py, no fontTools involved): cmap format 4 with glyphIdArray segments carrying a non-zero idDelta, 0 entries and shared glyphIdArray ranges, format 12 in odd group splits, one subtable referenced by two encoding records; glyf slots with padding and the other loca format; hmtx untrimmed / maximally trimmed / with trailing bytes; name records over shared and overlapping string storage; post format 2 with custom names stored out of glyph order plus an unused name. A foreign cmap/post input is used only if the spec-level reader, HarfBuzz and FreeType agree on its meaning (else the case is inconclusive)",
+    "boundary-sized inputs (vmon/gen/c01_boundary.py, struct-level edits assembled by the spec-level sfnt writer): CFF local Subrs INDEX padded with one never-called subroutine to exactly 254..257 / 65534..65537 bytes of object data (only where that INDEX is the table's last structure), HVAR advance-width maps over an ItemVariationData with 100/256/257/300/1000 rows, and a cmap whose four Unicode subtables disagree on some code points together with post 3.0 (glyph names synthesised from the cmap clash 3-4 ways); judged by the spec-level INDEX reader (well-formed, same item counts), the spec-level DeltaSetIndexMap reader (expanded to numGlyphs) and HarfBuzz outlines / advances at non-default locations",
     "HarfBuzz translates a top-level glyf outline by (lsb - header xMin): with recalcBBoxes=True a glyph whose header xMin changed (struct-level read) may differ by exactly that uniform horizontal translation and nothing else",
     "generated inputs (spec-written, vmon/gen/c01_gpos.py and c01_glyf.py): a GPOS with PairPos format 1/2 record arrays above the lazy-array threshold under different ValueFormats, and composite glyphs carrying every preservable component flag and transform form written into the binary glyf by struct-level surgery (non-variable glyf hosts; composites reference only glyphs that stay simple)",
     "raw table bytes of sfnt/TTC files come from a spec-written directory parser (vmon/oracle/c01_sfntdir.py); WOFF/WOFF2 containers are read through the library's reader (the container is C04's property)",
@@ -386,6 +388,35 @@ def cases(tier, seed):
                 cfg += [[(r + 2) % 3, 2, False], [r, 1, True]]
             cs.append({"id": "foreign:%s:%s" % (kind, _fid(rec)), "group": "foreign", "kind": kind, "path": rec["path"],
                        "member": None, "seed": seed, "configs": cfg})
+    # boundary-sized structures (vmon/gen/c01_boundary.py): CFF Subrs INDEX data sizes around 255 and
+    # 65535, delta-set index maps over VarData with 100..1000 rows, cmap subtables that disagree so
+    # that cmap-synthesised glyph names clash 3-4 ways
+    cff = [rec for rec in plain if rec["outlines"] == "CFF "]
+    # corpus CFF fonts whose local Subrs INDEX holds fewer than 253 bytes (a corpus fact, like the
+    # inventory; a listed font that no longer qualifies is skipped at run time)
+    few = {"subset/data/Lobster.subset.otf", "subset/data/Lobster.subset.ttx", "cffLib/data/CFFToCFF2-1.otf",
+           "ttx/data/TestOTF.otf", "ttx/data/TestOTF.ttx", "cffLib/data/TestOTF.ttx", "subset/data/TestOTF-Regular.ttx",
+           "subset/data/test_math_partial.ttx", "subset/data/test_cntrmask_CFF.ttx", "subset/data/test_hinted_subrs_CFF.ttx"}
+    small = sorted([rec for rec in recs if rec["path"] in few and rec["outlines"] == "CFF " and rec["member"] is None],
+                   key=lambda r: r["path"])
+    var = [rec for rec in plain if rec["variable"]]
+    bcfg = [[0, 0, False], [1, 0, False], [2, 0, False], [0, 0, True]] + ([[1, 0, True], [2, 1, False]] if T else [])
+    for rec in rnd.sample(small, min(len(small), 10 if T else 3)):
+        for target in (254, 255, 256, 257):
+            cs.append({"id": "boundary:cffindex%d:%s" % (target, _fid(rec)), "group": "boundary", "kind": "cffindex",
+                       "target": target, "path": rec["path"], "member": None, "seed": seed, "configs": bcfg})
+    for rec in rnd.sample(cff, min(len(cff), 8 if T else 2)):
+        for target in (65534, 65535, 65536, 65537):
+            cs.append({"id": "boundary:cffindex%d:%s" % (target, _fid(rec)), "group": "boundary", "kind": "cffindex",
+                       "target": target, "path": rec["path"], "member": None, "seed": seed, "configs": bcfg})
+    for rec in rnd.sample(var, min(len(var), 15 if T else 5)) + rnd.sample(plain, 6 if T else 1):
+        for rows in ((100, 256, 257, 300, 1000) if T else (rnd.choice([100, 256]), 257, rnd.choice([300, 1000]))):
+            cs.append({"id": "boundary:hvar%d:%s" % (rows, _fid(rec)), "group": "boundary", "kind": "hvar", "rows": rows,
+                       "path": rec["path"], "member": None, "seed": seed, "configs": bcfg})
+    tt8 = [rec for rec in ttplain if rec["numGlyphs"] >= 8 and "VARC" not in rec["tables"]]
+    for rec in rnd.sample(tt8, min(len(tt8), 24 if T else 6)):
+        cs.append({"id": "boundary:cmapclash:%s" % _fid(rec), "group": "boundary", "kind": "cmapclash", "path": rec["path"],
+                   "member": None, "seed": seed, "configs": bcfg})
     # composite glyphs carrying every preservable component flag and every transform form, written
     # into the binary glyf table by struct-level surgery
     tt = [rec for rec in pool if rec["complete"] and rec["outlines"] == "glyf" and not rec["variable"]
@@ -483,6 +514,33 @@ def _foreign_source(case, ctx, src, rnd):
     return sd.build(ver, tabs)
 
 
+def _boundary_source(case, ctx, src, rnd):
+    import struct
+    from vmon.gen import c01_boundary as BD
+
+    ver, _e = sd.directory(src)
+    tabs = sd.tables(src)
+    kind = case["kind"]
+    try:
+        n = struct.unpack(">H", tabs["maxp"][4:6])[0]
+        if kind == "cffindex":
+            tabs["CFF "], had = BD.cff_pad_subrs(tabs["CFF "], case["target"])
+            desc = "local Subrs INDEX padded from %d to %d bytes of data" % (had, case["target"])
+            BD.cff_indexes(tabs["CFF "])           # the edited input itself must be well-formed
+        elif kind == "hvar":
+            axes = struct.unpack(">H", tabs["fvar"][8:10])[0] if "fvar" in tabs else 1
+            tabs["HVAR"], desc = BD.hvar_big(rnd, n, axes, case["rows"])
+        else:
+            tabs["cmap"], desc = BD.cmap_clash(rnd, n)
+            tabs["post"] = BD.post3(tabs["post"])
+    except (BD.NotApplicable, cs_NotComparable, KeyError, struct.error, IndexError) as e:
+        ctx.skip("boundary input not applicable (%s): %s" % (kind, str(e)[:60] or type(e).__name__))
+        raise LibRaised()
+    ctx.note("boundary-structure:" + kind)
+    case["_desc"] = desc
+    return sd.build(ver, tabs)
+
+
 def _source(case, ctx):
     """bytes of the input file F of this case (+ TTC member index)."""
     from fontTools.ttLib import TTFont
@@ -502,6 +560,8 @@ def _source(case, ctx):
     rnd = random.Random("%s/%s/src" % (case["id"], case["seed"]))
     if g == "foreign":
         return _foreign_source(case, ctx, src, rnd), None
+    if g == "boundary":
+        return _boundary_source(case, ctx, src, rnd), None
     f = TTFont(io.BytesIO(src), lazy=True, recalcTimestamp=False, recalcBBoxes=False,
                fontNumber=member if member is not None else -1)
     if g in ("woff", "woff2", "plain"):
@@ -899,6 +959,47 @@ def _struct_diff(ctx, orig, new, label):
                 ctx.violation({"kind": "struct-content", "table": "cmap", "what": "mapping" if diff[0] != "subtable list" else diff[0]},
                               "%s: spec-written reader finds a different character map (%s) after load+save" % (label, diff[0]),
                               {"detail": repr(diff[1:])[:400]})
+    if "CFF " in orig and "CFF " in new and orig["CFF "] != new["CFF "]:
+        from vmon.gen import c01_boundary as BD
+
+        try:
+            ia = BD.cff_indexes(orig["CFF "])
+        except Exception:
+            ia = None                      # CID-keyed / font set / malformed source: not judged here
+        if ia is not None:
+            ctx.judged()
+            ctx.note("struct-level:CFF-indexes")
+            try:
+                ib = BD.cff_indexes(new["CFF "])
+                why = next(("%s INDEX has %d items, had %d" % (k, len(ib.get(k, [])), len(v)) for k, v in ia.items()
+                            if k in ("CharStrings", "Subrs", "GlobalSubrs", "Name") and len(ib.get(k, [])) != len(v)), None)
+            except Exception as e:
+                why = "recompiled table cannot be taken apart: %s" % (str(e)[:120] or type(e).__name__)
+            if why:
+                bad = True
+                ctx.violation({"kind": "struct-content", "table": "CFF ", "what": "INDEX structure"},
+                              "%s: spec-written reader: %s" % (label, why), None)
+    if "HVAR" in orig and "HVAR" in new and orig["HVAR"] != new["HVAR"] and "maxp" in orig:
+        import struct
+        from vmon.gen import c01_boundary as BD
+
+        try:
+            n = struct.unpack(">H", orig["maxp"][4:6])[0]
+            ha, hb_ = BD.hvar_maps(orig["HVAR"], n), BD.hvar_maps(new["HVAR"], n)
+        except Exception:
+            ha = None
+        if ha is not None:
+            ctx.judged()
+            ctx.note("struct-level:HVAR-index-maps")
+            for k in ("adv", "lsb", "rsb"):
+                if ha[k] != hb_[k]:
+                    bad = True
+                    a_, b_ = ha[k] or [], hb_[k] or []
+                    gid = next((i for i, (x, y) in enumerate(zip(a_, b_)) if x != y), min(len(a_), len(b_)))
+                    ctx.violation({"kind": "struct-content", "table": "HVAR", "what": "delta-set index map"},
+                                  "%s: spec-written reader finds a different %s index map after load+save" % (label, k),
+                                  {"glyph": gid, "original": a_[gid:gid + 1], "recompiled": b_[gid:gid + 1]})
+                    break
     if "post" in orig and "post" in new and orig["post"] != new["post"]:
         from vmon.gen import c01_foreign as FW
 
